@@ -257,6 +257,39 @@ def gen_script(rng, max_ops, profile):
             sp = max(st.shared[h])      # remove in reverse order of assignment (see C12/shared-assign-order)
             lines.append('removeshared #%d %d' % (h, sp))
             st.shared[h].discard(sp)
+        elif choice == 'burst':
+            # a write to one component followed, at the same world version, by a structural change in the same archetype,
+            # then a job run: the stamps of the two events must not mask each other (aimed at whole-chunk/one-slot stamping)
+            hs = [h for h in live_handles() if len(st.comps.get(h, ())) >= 2 and not st.shared.get(h)]
+            if depth or not hs or not njobs:
+                continue
+            h = rng.pick(hs)
+            cs = sorted(st.comps[h])
+            if rng.chance(1, 2):
+                lines.append('%s #%d %d' % (rng.pick(['getmut', 'markdirty']), h, rng.pick(cs)))
+            else:
+                lines.append('set #%d %d %d' % (h, rng.pick([c for c in cs if c != 6] or cs), value()))
+            same = [k for k in live_handles() if k != h and st.comps.get(k) == st.comps[h] and not st.shared.get(k) and k not in st.marked]
+            r = rng.below(3)
+            if r == 0 or not same:
+                lines.append('create 0 %s' % ' '.join(map(str, cs)))
+                st.comps[st.n] = closure(cs)
+                st.shared[st.n] = set()
+                st.n += 1
+            elif r == 1:
+                k = rng.pick(same)
+                lines.append('destroynow 0 #%d' % k)
+                st.comps.pop(k, None)
+            else:
+                # move an entity with one component fewer into this archetype
+                p_ = rng.pick(cs)
+                lines.append('create 0 %s' % ' '.join(str(c) for c in cs if c != p_))
+                lines.append('assign 0 #%d %d %d' % (st.n, p_, value()))
+                st.comps[st.n] = closure(cs)
+                st.shared[st.n] = set()
+                st.n += 1
+            if rng.chance(2, 3):
+                lines.append('runjob %d %d' % (rng.below(njobs), rng.below(2)))
         elif choice == 'runjob':
             if depth == 0 and njobs:
                 mode = rng.below(2)
@@ -373,12 +406,13 @@ def profile(name):
         p['verchunk'] = [1, 2, 3, 4, 5, 6]
         p['createarch'] = False
         p['jobs'] = [{'reqs': [(0, 1)], 'check': [0]}, {'reqs': [(0, 0)], 'check': []}, {'reqs': [(0, 1), (1, 3)], 'check': [0]},
-                     {'reqs': [(0, 1), (1, 1)], 'check': [0, 1]}, {'reqs': [(1, 0), (2, 3)], 'check': [1]}, {'reqs': [(0, 1)], 'check': []}]
+                     {'reqs': [(0, 1), (1, 1)], 'check': [0, 1]}, {'reqs': [(1, 0), (2, 3)], 'check': [1]}, {'reqs': [(0, 1)], 'check': []},
+                     {'reqs': [(1, 1), (0, 1)], 'check': [1]}, {'reqs': [(2, 0), (4, 3)], 'check': [2]}]
         if name == 'C04':
             p['jobs'] = [{'reqs': [(0, 1)], 'check': []}, {'reqs': [(0, 0), (1, 3)], 'check': []}, {'reqs': [(0, 1), (2, 1)], 'check': []},
                          {'reqs': [(0, 1)], 'check': [0]}, {'reqs': [(1, 0), (0, 2)], 'check': [1]}]
         p['weights'] = {'create': 26, 'destroynow': 9, 'destroy': 3, 'assign': 8, 'remove': 6, 'set': 12, 'get': 6,
-                        'clone': 2, 'update': 6, 'cleararch': 1, 'lock': 0, 'unlock': 0, 'runjob': 22}
+                        'clone': 2, 'update': 6, 'cleararch': 1, 'lock': 0, 'unlock': 0, 'runjob': 22, 'burst': 0 if name == 'C04' else 7}
     elif name == 'C13':
         p['deps'] = 100
         p['pals'] = [0, 1, 2, 3, 5, 8, 9]
